@@ -8,9 +8,11 @@ package sim
 
 import (
 	"context"
+	"database/sql"
 	"fmt"
 	"os"
 	"path/filepath"
+	"runtime/pprof"
 	"sort"
 	"time"
 
@@ -53,6 +55,19 @@ func C06Config(prop string, r *Rand, tier string) map[string]int64 {
 		c["w_rpcfault"], c["w_crash"] = 0, 0
 	}
 	return c
+}
+
+// rdProxy is the real detector; it only records what the driver asks it to track.
+type rdProxy struct {
+	*reorgdetector.ReorgDetector
+	onTrack func(num uint64, hash common.Hash)
+}
+
+func (p *rdProxy) AddBlockToTrack(ctx context.Context, id string, num uint64, hash common.Hash) error {
+	if p.onTrack != nil {
+		p.onTrack(num, hash)
+	}
+	return p.ReorgDetector.AddBlockToTrack(ctx, id, num, hash)
 }
 
 type c06Node struct {
@@ -99,13 +114,28 @@ func runC06(tr *Trace, sc *Script, rec *Recorder, scratch string) *Violation {
 	rdPath := filepath.Join(dir, "rd.sqlite")
 	var node *c06Node
 
-	floor := func() uint64 { // blocks at or below the detector's pointer are final
-		if detTag == aggkittypes.SafeBlock {
-			return chain.Safe
+	// Blocks at or below a pointer that any component treats as final are never replaced: the
+	// detector stops tracking blocks at or below its tag, and the downloader treats as finalized the
+	// "more final" of the syncer's and the detector's tags (sync.NewEVMDownloader).
+	floor := func() uint64 {
+		if detTag == aggkittypes.SafeBlock || syncTag == aggkittypes.SafeBlock {
+			return max(chain.Safe, chain.Finalized)
 		}
 		return chain.Finalized
 	}
 
+	// repeatDelivered[n]: the driver was handed block number n again (different hash) while n was stored
+	repeatDelivered := map[uint64]bool{}
+	var nodeRef **c06Node
+	onTrack := func(num uint64, hash common.Hash) {
+		if nodeRef == nil || *nodeRef == nil {
+			return
+		}
+		var h *string
+		if err := (*nodeRef).store.P.DB().QueryRow("SELECT hash FROM block WHERE num = ?", num).Scan(&h); err == nil && h != nil && common.HexToHash(*h) != hash {
+			repeatDelivered[num] = true
+		}
+	}
 	start := func(subFirst bool) *Violation {
 		w.BeginSetup()
 		defer w.EndSetup()
@@ -118,7 +148,7 @@ func runC06(tr *Trace, sc *Script, rec *Recorder, scratch string) *Violation {
 			return &Violation{Oracle: "harness", Detail: "reorgdetector.New: " + err.Error()}
 		}
 		mk := func() error {
-			n.syncer, err = l1infotreesync.New(ctx, storePath, addrGER, addrRM, uint64(cfg["chunk"]), syncTag, n.rd,
+			n.syncer, err = l1infotreesync.New(ctx, storePath, addrGER, addrRM, uint64(cfg["chunk"]), syncTag, &rdProxy{ReorgDetector: n.rd, onTrack: onTrack},
 				&FakeClient{W: w, C: chain, Label: "dl", Epoch: w.Epoch}, time.Duration(cfg["wait_ms"])*time.Millisecond, 0,
 				time.Duration(cfg["retry_ms"])*time.Millisecond, -1, l1infotreesync.FlagAllowWrongContractsAddrs, detTag, true)
 			return err
@@ -151,6 +181,7 @@ func runC06(tr *Trace, sc *Script, rec *Recorder, scratch string) *Violation {
 		node.store.P.DB().Close()
 		w.Revive()
 	}
+	nodeRef = &node
 	if v := start(false); v != nil {
 		return v
 	}
@@ -380,6 +411,9 @@ func runC06(tr *Trace, sc *Script, rec *Recorder, scratch string) *Violation {
 			chain.Mine(r.U64(), gen1.Fill(r, density))
 		}
 	}
+	// finality catches up with the chain that no longer forks (the syncer may follow the safe / finalized tag)
+	chain.Finalized = chain.HeadNum() - min(chain.HeadNum(), 1)
+	chain.Safe = chain.HeadNum()
 	cap := 600 + 60*int(chain.HeadNum())
 	rr := 0
 	for i := 0; i < cap; i++ {
@@ -409,7 +443,37 @@ func runC06(tr *Trace, sc *Script, rec *Recorder, scratch string) *Violation {
 		return v
 	}
 	if ok, why := converged(); !ok {
+		if os.Getenv("VERIF_DUMP") != "" {
+			pprof.Lookup("goroutine").WriteTo(os.Stderr, 1)
+		}
 		sig := "c06/not-converged"
+		// mechanism check for a recorded finding: the detector has detected (and persisted) a reorg that covers
+		// a stored non-canonical block, but the driver never took the notification (it is retrying a block
+		// that keeps failing and does not listen for reorgs while retrying)
+		if cur, err := stored(); err == nil {
+			firstBad := uint64(0)
+			for _, sb := range cur {
+				if sb.Num != 0 && !chain.IsCanonical(sb.Num, sb.Hash) {
+					firstBad = sb.Num
+					break
+				}
+			}
+			if firstBad != 0 {
+				if db, err := sql.Open("sqlite3", "file:"+rdPath+"?mode=ro"); err == nil {
+					var n int
+					if db.QueryRow("SELECT COUNT(*) FROM reorg_event WHERE from_block <= ? AND to_block >= ?", firstBad, firstBad).Scan(&n) == nil && n > 0 {
+						sig = "c06/reorg-detected-but-never-taken-by-driver"
+					}
+					// second recorded mechanism: the block number of a stored, replaced block was delivered again
+					// (the tip had fallen below the last processed block when the downloader started) and
+					// AddBlockToTrack overwrote the tracked hash with the canonical one, hiding the reorg
+					if n == 0 && repeatDelivered[firstBad] {
+						sig = "c06/tracked-hash-overwritten-by-repeat-delivery"
+					}
+					db.Close()
+				}
+			}
+		}
 		return &Violation{Oracle: "convergence", Sig: sig, Detail: fmt.Sprintf("the chain stopped changing but after %d fair scheduler steps the store has not converged: %s (halted=%v, parked=[%s])", cap, why, node.store.IsHalted(), w.ParkedDigest())}
 	}
 	// (c) observational equality with the reference of the final canonical chain (up to the synced tip)
